@@ -195,3 +195,157 @@ def eval_clause(src, env):
     ns = dict(namespace())
     ns.update(env)
     return eval(src, ns)
+
+
+# ---- matching API (concrete R8 oracle = the real re module) --------------------------------------------------------
+FLAGS_MS = re.M | re.S
+
+
+def TXT(source, is_path):
+    if is_path:
+        with open(source, "r", encoding="utf-8") as f:
+            return f.read()
+    return source
+
+
+def READ(source):
+    with open(source, "r", encoding="utf-8") as f:
+        return f.read()
+
+
+def FINDITER(p, text):
+    return list(re.finditer(str(p), text, FLAGS_MS))
+
+
+def NMATCHES(p, text):
+    return len(FINDITER(p, text))
+
+
+def FULLMATCHES(p, text):
+    return re.fullmatch(str(p), text, FLAGS_MS) is not None
+
+
+def RESUB(p, repl, text, count):
+    return re.sub(str(p), repl, text, count, FLAGS_MS)
+
+
+def _aslist(x):
+    if isinstance(x, (list, tuple)):
+        return list(x)
+    return list(x)
+
+
+def SEQ_EQ(a, b):
+    return _aslist(a) == _aslist(b)
+
+
+def SAMESEQ(a, b):
+    la, lb = list(a), list(b)
+    return [(m.span(), m.groups()) for m in la] == [(m.span(), m.groups()) for m in lb]
+
+
+def LIST_EQ(a, b):
+    return a == b
+
+
+def NGROUPS(p):
+    return re.compile(str(p), FLAGS_MS).groups
+
+
+def NNAMED(p):
+    return len(re.compile(str(p), FLAGS_MS).groupindex)
+
+
+def CAPPOS(m, include_empty, relative, j):
+    out = []
+    for i in range(1, j + 1):
+        g = m.group(i)
+        if include_empty or g != '':
+            s, e = m.span(i)
+            if relative and s > -1:
+                s, e = s - m.start(0), e - m.start(0)
+            out.append((g, s, e))
+    return out
+
+
+def NAMEDPOS(m, include_empty, relative, j):
+    out = {}
+    names = list(m.re.groupindex.items())
+    for name, idx in names[:j]:
+        g = m.group(idx)
+        if include_empty or g != '':
+            s, e = m.span(idx)
+            if relative and s > -1:
+                s, e = s - m.start(0), e - m.start(0)
+            out[name] = (g, s, e)
+    return out
+
+
+def PREVEND(p, text, j):
+    ms = FINDITER(p, text)
+    return 0 if j <= 0 else ms[j - 1].end()
+
+
+def SPLITS(p, text, j):
+    ms = FINDITER(p, text)
+    out, prev = [], 0
+    for m in ms[:j]:
+        out.append(text[prev:m.start()])
+        prev = m.end()
+    return out
+
+
+def APPENDED(lst, x):
+    return list(lst) + [x]
+
+
+def SPLIT_BY_CAPTURE_SPEC(p, text, include_empty):
+    """pieces of the text between the spans of the participating captures (all, or only the non-empty ones), in order"""
+    out, idx = [], 0
+    for m in FINDITER(p, text):
+        for i in range(1, (m.re.groups or 0) + 1):
+            g = m.group(i)
+            if g is None:
+                continue
+            if not include_empty and g == '':
+                continue
+            s, e = m.span(i)
+            out.append(text[idx:s])
+            idx = e
+    out.append(text[idx:])
+    return out
+
+
+def EXPORTED(p):
+    return p.get_pattern()
+
+
+class _Compiled:
+    def __init__(self, c):
+        self.c = c
+
+
+def COMPILED(p):
+    return re.compile(p.get_pattern(), FLAGS_MS)
+
+
+def COMPILED_FIELD(p):
+    return p._Pregex__compiled
+
+
+def SAME_COMPILED(a, b):
+    if a is None or b is None:
+        return a is None and b is None
+    return a.pattern == b.pattern and a.flags == b.flags
+
+
+def FIXEDW(text):
+    try:
+        re.compile("(?<=%s)" % text, FLAGS_MS)
+    except re.error as e:
+        if e.msg == "look-behind requires fixed-width pattern":
+            return False
+    return True
+
+
+BUILTINS = {k: v for k, v in list(globals().items()) if k.isupper() or k in ("Witness",)}
